@@ -106,6 +106,7 @@ func runMapEncaps(p *core.Prog) *core.Result {
 			}
 		}
 	}
+	bucketDelete(p, res)
 	return res
 }
 
